@@ -704,6 +704,115 @@ impl Space for IndexFaults {
     }
 }
 
+// ----------------------------------------------------------------------
+// stored settings vs. settings supplied at load: "a settings argument supplied at load time overrides the stored
+// one" -- also when the stored one is unusable; without an override an unusable stored value is a malformed file
+// ----------------------------------------------------------------------
+pub struct StoredSettings;
+const SS_MUT: [(&str, &str, bool); 7] = [
+    ("direct_solve_method", "bogus", false),
+    ("direct_solve_method", "", false),
+    ("direct_solve_method", "QDLDL", false),
+    ("chordal_decomposition_merge_method", "bogus", false),
+    ("direct_solve_method", "qdldl", true),
+    ("chordal_decomposition_merge_method", "none", true),
+    ("chordal_decomposition_merge_method", "parent_child", true),
+];
+impl StoredSettings {
+    fn base(which: usize) -> Prob {
+        use ConeSpec::*;
+        match which {
+            0 => planted(&[NN(2), SOC(3)], 2, 5, 0, 0, 1, &p_menu(2)[3], false),
+            _ => planted(&[Exp, GenPow(vec![0.5, 0.5], 1)], 2, 1, 0, 0, 2, &Dense::zeros(2, 2), false),
+        }
+    }
+    fn overrides() -> Vec<Option<DefaultSettings<f64>>> {
+        let mut d = DefaultSettings::<f64>::default();
+        d.verbose = false;
+        let mut a = d.clone();
+        a.max_iter = 7;
+        let mut b = d.clone();
+        b.direct_solve_method = "qdldl".to_string();
+        b.equilibrate_enable = false;
+        vec![None, Some(d), Some(a), Some(b)]
+    }
+    fn decode(&self, id: u64) -> (usize, usize, usize) {
+        let mut d = Digits(id);
+        (d.take(2) as usize, d.take(SS_MUT.len() as u64) as usize, d.take(4) as usize)
+    }
+}
+impl Space for StoredSettings {
+    fn name(&self) -> String {
+        "stored-settings-vs-override".into()
+    }
+    fn size(&self) -> u64 {
+        2 * SS_MUT.len() as u64 * 4
+    }
+    fn describe(&self, id: u64) -> Value {
+        let (b, m, o) = self.decode(id);
+        json!({"problem": Self::base(b).to_json(), "stored_settings_field": SS_MUT[m].0, "stored_value": SS_MUT[m].1, "stored_value_usable": SS_MUT[m].2,
+               "override": (["none", "default", "max_iter=7", "qdldl, equilibration off"][o])})
+    }
+    fn bound(&self) -> Value {
+        json!({"bases": 2, "stored_values": SS_MUT.iter().map(|m| format!("{}={:?}", m.0, m.1)).collect::<Vec<_>>(), "overrides": 4})
+    }
+    fn run(&self, id: u64, ctx: &mut Ctx) -> CaseResult {
+        let (b, m, o) = self.decode(id);
+        let p = Self::base(b);
+        let mut st = DefaultSettings::<f64>::default();
+        st.verbose = false;
+        let solver = p.build(st.clone());
+        let bytes = save_bytes(&solver).map_err(|e| Violation::new("save-failed", e))?;
+        let mut doc: Value = serde_json::from_slice(&bytes).map_err(|e| Violation::new("saved-file-not-json", format!("{}", e)))?;
+        let (field, value, usable) = SS_MUT[m];
+        ensure!(doc["settings"].get(field).is_some(), "saved-file-lacks-settings-field", "{}", field);
+        doc["settings"][field] = json!(value);
+        let file = serde_json::to_vec(&doc).unwrap();
+        let ov = Self::overrides()[o].clone();
+        let what = format!("stored {}={:?}, override {}", field, value, ["none", "default", "max_iter=7", "qdldl, equilibration off"][o]);
+        ctx.transitions += 1;
+        let loaded = match load_bytes(&file, ov.clone()) {
+            Err(panic) => return Err(Violation::new(format!("load-panics:{}", super::sweep::panic_site(&panic)), format!("{}: {}", what, panic))),
+            Ok(r) => r,
+        };
+        match (&ov, usable, loaded) {
+            (None, false, Ok(_)) => Err(Violation::new("unusable-stored-settings-accepted", what)),
+            (None, false, Err(_)) => {
+                ctx.outcome("unusable-stored-settings-rejected");
+                Ok(())
+            }
+            (_, _, Err(e)) => Err(Violation::new("load-rejected-although-the-settings-in-force-are-usable", format!("{}: {}", what, e))),
+            (_, _, Ok(mut l)) => {
+                let mut want = match &ov {
+                    Some(o) => o.clone(),
+                    None => {
+                        let mut w = st.clone();
+                        match field {
+                            "direct_solve_method" => w.direct_solve_method = value.to_string(),
+                            _ => w.chordal_decomposition_merge_method = value.to_string(),
+                        }
+                        w
+                    }
+                };
+                ensure!(settings_equal(&l.settings, &want), if ov.is_some() { "override-settings-not-used" } else { "stored-settings-not-used" }, "{}: {:?}", what, l.settings);
+                want.verbose = false;
+                let mut fresh = p.build(want);
+                guarded(|| {
+                    l.solve();
+                    fresh.solve();
+                })
+                .map_err(|e| Violation::new("solve-panics-after-load", format!("{}: {}", what, e)))?;
+                ensure!(l.solution.status == fresh.solution.status, "verdict-differs-after-load", "{}: {:?} vs {:?}", what, l.solution.status, fresh.solution.status);
+                let (a, b) = (l.solution.obj_val, fresh.solution.obj_val);
+                ensure!((a - b).abs() <= 1e-6 * a.abs().max(b.abs()).max(1.0) || (a.is_nan() && b.is_nan()), "objective-differs-after-load", "{}: {} vs {}", what, a, b);
+                ctx.nontrivial += 1;
+                ctx.outcome(if ov.is_some() { "override-in-force" } else { "stored-in-force" });
+                Ok(())
+            }
+        }
+    }
+}
+
 struct ConeRows;
 impl ConeRows {
     fn rows(c: &SupportedConeT<f64>) -> usize {
@@ -735,5 +844,6 @@ pub fn spaces(tier: &str, _seed: u64) -> Vec<Box<dyn Space>> {
     for w in 0..3 {
         v.push(Box::new(IndexFaults::new(w)));
     }
+    v.push(Box::new(StoredSettings));
     v
 }
